@@ -837,7 +837,11 @@ func init() {
 			c.Count("refcat_documents_of_other_generators", 1)
 			refcatJudgeDoc(c, id, "generated:"+label, text, o)
 		}
-		defer func() { docTap = nil }()
+		// the other generators run with the bounds of their quick tier in both tiers (their own
+		// checks run them deeper); what varies with the tier is this check's own generator
+		tier := c.Tier
+		c.Tier = "quick"
+		defer func() { docTap = nil; c.Tier = tier }()
 		for _, g := range gens {
 			g(c)
 		}
